@@ -80,18 +80,25 @@ def oracle(sc, obs):
             out.append(dict(what="listen() returned without / before any shutdown trigger", observed=dict(ret_us=f.ret_t, trigger_us=f.t0),
                             expected="stop request, budget or end of stream first", sig=dict(kind="early_return")))
             return out
-        unfinished = [i for i in taken if i not in ends or ends[i] > f.ret_t]
+        # finished = the callback has ended and every acknowledgement that was begun (ack callable invoked) has completed
+        def ack_pending(i):
+            return len([t for t in f.acks.get(i, []) if t <= f.ret_t]) > len([t for t in f.ackend.get(i, []) if t <= f.ret_t])
+
+        unfinished = [i for i in taken if i not in ends or ends[i] > f.ret_t or ack_pending(i)]
         if unfinished and (wtt is None or f.ret_t < f.t0 + wtt):
-            out.append(dict(what="listen() returned while an accepted task was still running and wait_tasks_timeout had not elapsed",
-                            observed=dict(ret_us=f.ret_t, trigger_us=f.t0, unfinished=unfinished, wtt_us=wtt),
+            out.append(dict(what="listen() returned while an accepted task was still running (or its acknowledgement had not completed) "
+                                 "and wait_tasks_timeout had not elapsed",
+                            observed=dict(ret_us=f.ret_t, trigger_us=f.t0, unfinished=unfinished, wtt_us=wtt,
+                                          ack_in_flight=[i for i in unfinished if ack_pending(i)]),
                             expected="return after every accepted task, or not before trigger + wait_tasks_timeout", sig=dict(kind="no_wait")))
         if not unfinished:
             for i in taken:
                 m = msgs[i]
                 if m["kind"] == "ok" and m.get("ack", "none") != "none" and not m.get("pre_fail") and not m.get("post_fail"):
-                    n = sum(1 for t in f.acks.get(i, []) if t <= f.ret_t)
+                    n = sum(1 for t in f.ackend.get(i, []) if t <= f.ret_t)      # COMPLETED acknowledgements
                     if n != 1:
-                        out.append(dict(what="drained return but an accepted message is not acknowledged exactly once", observed=dict(msg=i, acks=n),
+                        out.append(dict(what="drained return but an accepted message is not acknowledged exactly once",
+                                        observed=dict(msg=i, acks_completed=n, ack_calls=len(f.acks.get(i, []))),
                                         expected=1, sig=dict(kind="ack")))
                         break
     if f.t0 is None:
@@ -158,6 +165,7 @@ def explore(ctx, rep, scs, label):
             rep.fail(f["what"], sc, observed=f["observed"], expected=f["expected"], sig=f["sig"])
             rep.count("oracle:" + f["sig"].get("kind", "?"))
         rep.count("returned" if o["returned"] else "cut")
+        R.count_inputs(rep, sc)
         rep.count("trigger:" + ("stop" if sc["stop_us"] is not None else "-") + ("+N" if sc["N"] else "") + ("+end" if sc["ends"] else ""))
         rep.count("wtt=%s" % ("set" if sc.get("wtt_us") is not None else None))
     bad, fails = R.acceptance(ctx, rep, label, scs, obss, "C05_check")
